@@ -281,6 +281,7 @@ def judge_wrapper_real(order):
     E = np.array([e[2] for e in evs])
     out = []
     objs = []
+    first = {}
     with own.null_progress(), dask.config.set(scheduler="synchronous"), np.errstate(all="ignore"):
         for h in order:
             objs.append((h, EAS(sim.make_config(altitude=h))))
@@ -293,6 +294,12 @@ def judge_wrapper_real(order):
                 exp = float(base[i][0]) * ((s_of(525.0, be) - s_of(y, be)) / (s_of(h, be) - s_of(y, be))) ** 2
                 if not (abs(dens[i] - exp) <= 1e-4 * abs(exp)):
                     out.append(("wrapper_scales_by_its_own_altitude", f"h={h} event {i}: {exp}", float(dens[i])))
+            first[h] = (np.asarray(pes, dtype=np.float64).tobytes(), np.asarray(ceff, dtype=np.float64).tobytes())
+        # the SAME batch once more through every wrapper (reverse order): PE = density x area x QE each time, bit for bit
+        for h, eas in objs[::-1]:
+            pes, ceff = eas(b.copy(), a.copy(), E.copy(), np.zeros(3), np.zeros(3), cloudf=None)
+            if (np.asarray(pes, dtype=np.float64).tobytes(), np.asarray(ceff, dtype=np.float64).tobytes()) != first[h]:
+                out.append(("wrapper_repeat_call_identical", f"h={h}: PEs {np.frombuffer(first[h][0]).tolist()}", np.asarray(pes, dtype=np.float64).tolist()))
     return out
 
 
